@@ -93,8 +93,11 @@ def setup_path(ctx, kind, m, n, cfg, mock_prefilter=True, adapter_alphabet=AC.IU
     read = sym_str(ctx, "r", n, lo=0, hi=127) if read_alphabet is None else sym_str(ctx, "r", n, alphabet=read_alphabet)
     c = dict(cfg)
     if kind in ("prefix", "suffix"):
+        # anchored adapters always need to match in full, whatever -O says: the value handed to the constructor
+        # (as the command line does) is arbitrary, the required overlap is m
         c["min_overlap"] = m
         mo = m
+        c["min_overlap_given"] = cfg.get("min_overlap_given", None) or (sym_int(ctx, "min_overlap_given", 1, m + 1) if "min_overlap" not in cfg else cfg["min_overlap"])
     elif "min_overlap" in cfg:
         mo = cfg["min_overlap"]
     else:
@@ -103,17 +106,19 @@ def setup_path(ctx, kind, m, n, cfg, mock_prefilter=True, adapter_alphabet=AC.IU
     return it, adapter, read, c, mo
 
 
-def make_cex(kind, cfg, adapter, read, mo):
+def make_cex(kind, cfg, adapter, read, mo, given=None):
     def mk(model):
         c = dict(cfg)
         c["min_overlap"] = model_int(model, mo)
+        if given is not None:
+            c["min_overlap_given"] = model_int(model, given)
         return {"kind": kind, "cfg": c, "adapter": model_str(model, adapter), "read": model_str(model, read)}
     return mk
 
 
 def path(J, ctx, kind, m, n, cfg):
     it, adapter, read, c, mo = setup_path(ctx, kind, m, n, cfg)
-    mk = make_cex(kind, cfg, adapter, read, mo)
+    mk = make_cex(kind, cfg, adapter, read, mo, c.get("min_overlap_given"))
     try:
         ad = AC.build_adapter(it, kind, adapter, c, mock_prefilter=True)
     except ValueError:
